@@ -41,6 +41,12 @@ impl Transformer {
         }
     }
 
+    /// Whether the name refers to a variable, a function parameter or a local
+    /// variable of the current scope.
+    fn is_variable(&self, name: &str) -> bool {
+        self.variable_names.iter().any(|v| v == name)
+    }
+
     pub fn transform_expression(&self, expression: &mut Expression) {
         match expression {
             Expression::Scalar(..) | Expression::Boolean(_, _) | Expression::TypedHole(_) => {}
@@ -67,7 +73,8 @@ impl Transformer {
             }
             Expression::UnaryOperator { op, expr, span_op } => {
                 // Syntactic sugar for entering temperatures in °C or °F. Transform
-                // `-5 °C`, which is parsed as -(5 °C), into from_celsius(-5).
+                // `-5 °C`, which is parsed as -(5 °C), into from_celsius(-5). A variable
+                // or parameter with one of these names is an ordinary factor.
                 if *op == crate::ast::UnaryOperator::Negate
                     && let Expression::BinaryOperator {
                         op: bin_op,
@@ -78,6 +85,7 @@ impl Transformer {
                     && *bin_op == crate::ast::BinaryOperator::Mul
                     && let Expression::Identifier(rhs_span, ident) = inner_rhs.as_ref()
                     && let Some(fn_name) = temperature_conversion_function(ident)
+                    && !self.is_variable(ident)
                 {
                     // Transform the inner lhs first
                     self.transform_expression(inner_lhs);
@@ -115,6 +123,7 @@ impl Transformer {
                 if *op == crate::ast::BinaryOperator::Mul
                     && let Expression::Identifier(rhs_span, ident) = rhs.as_ref()
                     && let Some(fn_name) = temperature_conversion_function(ident)
+                    && !self.is_variable(ident)
                 {
                     let full_span = lhs.full_span().extend(rhs_span);
                     *expression = Expression::FunctionCall {
@@ -277,6 +286,9 @@ impl Transformer {
                 //
                 let mut fn_body_transformer = self.clone();
                 for (param_span, param, _) in &*parameters {
+                    fn_body_transformer
+                        .variable_names
+                        .push(param.to_compact_string());
                     fn_body_transformer
                         .prefix_parser
                         .add_shadowing_identifier(param, *param_span)?;
